@@ -411,25 +411,55 @@ theorem warn_shows_message_partial (i : Markup.Inert) (msg : Str)
       Markup.warnShown Gen.emojiSample Gen.warnSpec msg = .shown (i.pre ++ msg ++ t) :=
   Markup.warn_inert _ _ i msg hi hs
 
-/-- **The per-file handler** of `Project.__init__` (generated table `Gen.handlerSteps`): re-raise
-    unless `dbg`, warn, go on with the next file (the `continue` may be left out when nothing
-    follows) - nothing else (this is what `loadFrom` models). -/
+/-- **The per-file handler** of `Project.__init__` (generated table `Gen.handlerSteps`, since round 5
+    *observed*: the loop is run with a constructor that raises - every built-in exception class,
+    every shape of `args`, with and without `dbg` - and all probes agree): without `dbg` the
+    exception leaves the loop and nothing is printed; with `dbg` there is exactly one call of `warn`
+    before the next file, and the next file is read and registered - nothing else (this is what
+    `loadFrom` models).  (`continue_` is now the observed fact that the loop goes on, so it may no
+    longer be absent.) -/
 theorem handler_warns_and_continues :
-    Gen.handlerSteps = [.reraiseUnlessDbg, .warn, .continue_] ∨ Gen.handlerSteps = [.reraiseUnlessDbg, .warn] := by
+    Gen.handlerSteps = [.reraiseUnlessDbg, .warn, .continue_] := by
   decide
 
 /-- **A rejected file is named in the diagnostic.**  The message of the handler (generated table
-    `Gen.rejectionMsg`) contains the path of the file of *this* iteration, and `warn` shows it:
-    for every path and every exception text, the path appears on the terminal, character by
-    character. -/
+    `Gen.rejectionRules`: a decision list over the text of the exception, observed by running the
+    per-file loop with a constructor that raises) contains the path of the file of *this*
+    iteration whichever rule applies, and `warn` shows it: for every path and every exception text
+    - also one that already names a file, as the reader's `In file ...` errors do, possibly an
+    INCLUDEd file - the path of the rejected file appears on the terminal, character by character. -/
 theorem rejected_file_named_on_terminal_partial (i : Markup.Inert) (path err : Str)
     (hi : Markup.inertShape Gen.emojiSample Gen.warnSpec = some i)
-    (hs : Markup.safeMsg Gen.warnSpec i (Markup.rejectionMsg Gen.rejectionMsg path err) = true) :
-    ∃ a b, Markup.warnShown Gen.emojiSample Gen.warnSpec (Markup.rejectionMsg Gen.rejectionMsg path err)
+    (hs : Markup.safeMsg Gen.warnSpec i (Markup.rejectionText Gen.rejectionRules path err) = true) :
+    ∃ a b, Markup.warnShown Gen.emojiSample Gen.warnSpec (Markup.rejectionText Gen.rejectionRules path err)
       = .shown (a ++ path ++ b) := by
   obtain ⟨t, _, e⟩ := warn_shows_message_partial i _ hi hs
-  obtain ⟨a, b, e2⟩ := Markup.rejectionMsg_names Gen.rejectionMsg path err (by decide)
+  obtain ⟨a, b, e2⟩ := Markup.rejectionText_names Gen.rejectionRules path err (by decide)
   exact ⟨i.pre ++ a, b ++ t, by rw [e, e2]; simp⟩
+
+/-- **The handler's message does not depend on what the exception says** about files: every rule of
+    `Gen.rejectionRules` contains the path piece and the last resort is unconditional (this is the
+    table fact the theorem above rests on; it is false as soon as one class of exception texts is
+    passed on without the path). -/
+theorem every_rejection_rule_names_the_file : Markup.rulesNameFile Gen.rejectionRules = true := by
+  decide
+
+open Ford.TypeSpec in
+/-- **Witness: why every rule has to name the file.**  A handler that passes on a text starting with
+    `In file ` as it is ("the reader has said it already"): for an error in an INCLUDEd file the
+    reader names *that* file - the rejected source file `src/solver.f90` is then nowhere in the
+    message, although the default rule would have named it. -/
+theorem verbatim_reader_message_witness :
+    let rules : List (Markup.ErrGuard × List Markup.MsgPiece) :=
+      [(.errPrefix (chars! "In file "), [.err]),
+       (.any, [.lit (chars! "Error parsing "), .path, .lit (chars! ". "), .err])]
+    let err := chars! "In file /p/src/limits.inc 1| integer :: n !| doc"
+    Markup.rulesNameFile rules = false
+    ∧ Markup.rejectionText rules (chars! "src/solver.f90") err = err
+    ∧ Markup.occursIn (chars! "solver") (Markup.rejectionText rules (chars! "src/solver.f90") err) = false
+    ∧ Markup.occursIn (chars! "src/solver.f90")
+        (Markup.rejectionText rules (chars! "src/solver.f90") (chars! "File ended while still nested.")) = true := by
+  decide +kernel
 
 /-- **The real `warn` does so too** (table `Gen.warnProbes`, regenerated on every run by calling
     `ford.console.warn` on messages with brackets, closing-tag look-alikes, backslashes and emoji
@@ -499,7 +529,7 @@ example : Gen.patterns.any (fun p => (Rx.loopsCF p.2 true).any (fun a => match a
   decide +kernel
 open Ford.TypeSpec in
 example : ∃ i, Markup.inertShape Gen.emojiSample Gen.warnSpec = some i
-    ∧ Markup.safeMsg Gen.warnSpec i (Markup.rejectionMsg Gen.rejectionMsg (chars! "src/solver[old].f90") (chars! "& = [/ 1.0 /]")) = true := by
+    ∧ Markup.safeMsg Gen.warnSpec i (Markup.rejectionText Gen.rejectionRules (chars! "src/solver[old].f90") (chars! "& = [/ 1.0 /]")) = true := by
   decide +kernel
 example : Gen.warnProbes.length ≥ 10 ∧ Gen.progressProbes.length ≥ 6
     ∧ (Gen.warnProbes.any (fun p => p.1.any (· == '[') && p.1.any (· == '/'))) = true := by decide +kernel
